@@ -35,6 +35,22 @@ MinorCount(x) == IF 2 * ACountUnphased(x) > Copies(x) THEN Copies(x) - ACountUnp
 HetNum(x) == ACountUnphased(x) * (Copies(x) - ACountUnphased(x))
 GtCount(x) == <<N0(x), N1(x), N2(x)>>
 
+\* ---- any ploidy P: a locus is its dosage-class composition dc, dc[k+1] = number of taxa carrying k copies (k = 0..P)
+RECURSIVE SumSeq(_, _)
+SumSeq(f, k) == IF k = 0 THEN 0 ELSE f[k] + SumSeq(f, k - 1)
+PloidyDC(dc) == Len(dc) - 1
+NDC(dc)      == SumSeq(dc, Len(dc))
+ACountDC(dc) == SumSeq([k \in 1..Len(dc) |-> (k - 1) * dc[k]], Len(dc))
+CopiesDC(dc) == PloidyDC(dc) * NDC(dc)
+PolyDC(dc)   == 0 < ACountDC(dc) /\ ACountDC(dc) < CopiesDC(dc)
+AllCopiesEqualDC(dc) == dc[1] = NDC(dc) \/ dc[Len(dc)] = NDC(dc)
+MinorCountDC(dc) == IF 2 * ACountDC(dc) > CopiesDC(dc) THEN CopiesDC(dc) - ACountDC(dc) ELSE ACountDC(dc)
+HetNumDC(dc) == ACountDC(dc) * (CopiesDC(dc) - ACountDC(dc))
+\* the diploid operators above are the P = 2 instance
+DiploidIsInstance == /\ ACountDC(GtCount(q)) = ACountUnphased(q) /\ CopiesDC(GtCount(q)) = Copies(q)
+                     /\ PolyDC(GtCount(q)) = Poly(q) /\ MinorCountDC(GtCount(q)) = MinorCount(q)
+                     /\ HetNumDC(GtCount(q)) = HetNum(q) /\ AllCopiesEqualDC(GtCount(q)) = AllCopiesEqual(q)
+
 Init == q \in {x \in [1..4 -> 0..MaxN] : N(x) >= 1 /\ N(x) <= MaxN}
 Next == UNCHANGED q
 Spec == Init /\ [][Next]_vars
